@@ -146,7 +146,7 @@ func init() {
 				}
 			}
 			for _, f := range Formats {
-				for _, tg := range []string{"file", "dir", "empty", "foreign-ext", "nested-missing-dir", "file-noext", "file-dotted-dir", "dir-symlink", "dir-trailing-slash", "file-symlink"} {
+				for _, tg := range []string{"file", "dir", "empty", "foreign-ext", "nested-missing-dir", "file-noext", "file-dotted-dir", "dir-symlink", "dir-trailing-slash", "file-symlink", "file-dollar", "dir-dollar"} {
 					for _, wp := range []bool{true, false} {
 						for _, pre := range []string{"", "rc1"} {
 							c := baseMeta()
@@ -373,6 +373,18 @@ func checkC15(env *engine.Env, ci any) engine.Outcome {
 		if !c.WithP && f == "archlinux" {
 			wantFail = true // .pkg.tar.zst is not a spelling the packager is inferred from
 		}
+	case "file-dollar":
+		// a target name that looks like environment references: used literally
+		target = filepath.Join(work, "outdir", "pkg-$HOME-${USER}-$C15_UNSET"+extOf[f])
+		if !c.WithP && f == "archlinux" {
+			target = filepath.Join(work, "outdir", "pkg-$HOME-${USER}-$C15_UNSET.archlinux")
+		}
+		wantPath, wantFormat = target, f
+	case "dir-dollar":
+		os.Mkdir(filepath.Join(work, "out-$HOME"), 0o755)
+		target = filepath.Join(work, "out-$HOME")
+		wantPath, wantFormat = filepath.Join(target, conv), f
+		wantFail = !c.WithP
 	case "file-noext":
 		// a file target without any extension that does not exist yet: still a file, at exactly that path
 		target = filepath.Join(work, "outdir", "mypackage")
